@@ -645,7 +645,7 @@ class MutableMixin:
             holy grail |     |X   |
         """
         self._objects.add(obj)
-        properties = set(properties)
+        properties = tools.Unique(properties)
         self._properties |= properties
         pairs = self._pairs
         for p in self._properties:
@@ -681,7 +681,7 @@ class MutableMixin:
             holy grail |X    |
         """
         self._properties.add(prop)
-        objects = set(objects)
+        objects = tools.Unique(objects)
         self._objects |= objects
         pairs = self._pairs
         for o in self._objects:
